@@ -681,7 +681,7 @@ def run(chk, replay=None):
                     if ok is None:
                         ok = ok_cache[a] = drv.ask1('c06.okvalue ' + enc(a)).split(' ')[0]
                     chk.count('theorem-hypothesis okValue[%s]' % origin, ok)
-        # ---------- is the case an instance of the line-level theorem (C06Line.line_roundtrip_full)?  The
+        # ---------- is the case an instance of the line-level theorem (C06Line.line_roundtrip_full_partial)?  The
         # hypotheses `normalCpt` / `optsNormal` / `grammarWF` are evaluated by Lean on the parsed component.
         inst = []
         for r in t1:
@@ -699,7 +699,7 @@ def run(chk, replay=None):
             chk.count('theorem-hypothesis normalCpt[%s]' % origin, f[0])
             if f[0] == 'true':
                 chk.count('theorem-hypothesis optsNormal[%s]' % origin, f[1] if len(f) > 1 else '?')
-            chk.count('theorem-instance line_roundtrip_full', 'instance' if is_inst else 'outside-hypotheses')
+            chk.count('theorem-instance line_roundtrip_full_partial', 'instance' if is_inst else 'outside-hypotheses')
         # ---------- real print (through a real Circuit when it can be built)
         c1 = None
         try:
@@ -834,8 +834,8 @@ def run(chk, replay=None):
             if inst and all(x is not False for x in inst) and len(lines) == len(t1):
                 # every component is an instance of the proved line-level theorem, yet the real code fails:
                 # the model cannot be the code (the correspondence above must have disagreed as well)
-                chk.count('theorem-instance line_roundtrip_full', 'instance-but-real-code-fails')
-                disagree('theorem-instance-fails-on-real-code', text, verdict, 'line_roundtrip_full applies')
+                chk.count('theorem-instance line_roundtrip_full_partial', 'instance-but-real-code-fails')
+                disagree('theorem-instance-fails-on-real-code', text, verdict, 'line_roundtrip_full_partial applies')
             cause = classify_cause(t1o, t2o, p1, verdict)
             key.update({'clause': verdict, 'cause': cause})
             if cause != 'other':
@@ -877,7 +877,7 @@ def run(chk, replay=None):
                     return 'violation'
         for x in inst:
             if x:
-                chk.count('theorem-instance line_roundtrip_full', 'instance-and-real-code-agrees')
+                chk.count('theorem-instance line_roundtrip_full_partial', 'instance-and-real-code-agrees')
         chk.count('outcome', 'roundtrip-ok')
         return 'ok'
 
